@@ -176,9 +176,18 @@ func checkC19(s *Scenario) (*Failure, *schedObs) {
 	if !ok {
 		return nil, obs
 	}
+	// Three independently parsed copies of the shared tree: one per sequential
+	// run and an untouched one for the interleaved run, so that state written
+	// lazily on first use (a memo inside the tree) is first touched by
+	// concurrent tasks, as it would be in a server.
 	sharedBefore := snapAll(env.shared)
 	solo1, steps1 := soloRun(env, s.Tasks)
-	solo2, _ := soloRun(env, s.Tasks)
+	env2, ok2 := buildTaskEnv(s)
+	envC, ok3 := buildTaskEnv(s)
+	if !ok2 || !ok3 {
+		return &Failure{Check: "sequential-nondeterminism", Observed: "Parse of the shared document panicked on a repeated call"}, obs
+	}
+	solo2, _ := soloRun(env2, s.Tasks)
 	obs.SoloSteps = steps1
 	for i := range solo1 {
 		if solo1[i] != solo2[i] {
@@ -190,6 +199,7 @@ func checkC19(s *Scenario) (*Failure, *schedObs) {
 		return &Failure{Check: "shared-tree-touched", Observed: "by a sequential run: " + firstDiff(sharedBefore, a)}, obs
 	}
 	theRaceLog.take() // discard anything the sequential runs produced (cannot be cross-task)
+	env = envC
 
 	results := make([]string, len(s.Tasks))
 	bodies := make([]func(), len(s.Tasks))
@@ -211,22 +221,33 @@ func checkC19(s *Scenario) (*Failure, *schedObs) {
 	obs.TaskSteps = res.TaskSteps
 
 	report := theRaceLog.take()
+	var fails []*Failure
 	if strings.Contains(report, "DATA RACE") {
 		obs.RaceReport = report
-		return &Failure{Check: "race", Observed: raceSummary(report), Stack: trunc(report, 6000)}, obs
+		fails = append(fails, &Failure{Check: "race", Observed: raceSummary(report), Stack: trunc(report, 6000)})
 	}
 	for i := range results {
 		if strings.HasPrefix(results[i], "PANIC: ") && !strings.HasPrefix(solo1[i], "PANIC: ") {
-			return &Failure{Check: "panic", Observed: fmt.Sprintf("task %d (%s) panicked only when interleaved: %s", i, s.Tasks[i].Kind, trunc(results[i], 3000))}, obs
+			fails = append(fails, &Failure{Check: "panic", Observed: fmt.Sprintf("task %d (%s) panicked only when interleaved: %s", i, s.Tasks[i].Kind, trunc(results[i], 3000))})
+			break
 		}
+	}
+	for i := range results {
 		if results[i] != solo1[i] {
-			return &Failure{Check: "result", Observed: fmt.Sprintf("task %d (%s): %s", i, s.Tasks[i].Kind, firstDiff(results[i], solo1[i])), Expected: trunc(solo1[i], 1500)}, obs
+			fails = append(fails, &Failure{Check: "result", Observed: fmt.Sprintf("task %d (%s): %s", i, s.Tasks[i].Kind, firstDiff(results[i], solo1[i])), Expected: trunc(solo1[i], 1500)})
+			break
 		}
 	}
 	if a := snapAll(env.shared); a != sharedBefore {
-		return &Failure{Check: "shared-tree-touched", Observed: firstDiff(sharedBefore, a)}, obs
+		fails = append(fails, &Failure{Check: "shared-tree-touched", Observed: firstDiff(sharedBefore, a)})
 	}
-	return nil, obs
+	if len(fails) == 0 {
+		return nil, obs
+	}
+	for _, f := range fails[1:] {
+		fails[0].Also = append(fails[0].Also, f.Check)
+	}
+	return fails[0], obs
 }
 
 // raceSummary extracts the two stack tops of the first report.
